@@ -77,6 +77,7 @@ func (m *Machine) step1(it *Item, ins ssa.Instruction) {
 		if isByteSlice(x.Type()) {
 			t := m.EmptyText()
 			t.N = ln
+			t.Lit = nil
 			m.setReg(f, x, t)
 			break
 		}
@@ -280,9 +281,16 @@ func (m *Machine) sliceOp(it *Item, x *ssa.Slice) Value {
 		if full.IsTrue() {
 			return bv
 		}
-		nt := m.FreshText("slice")
-		m.Assume(c.And(c.Eq(nt.N, m.sub(hi, lo)), m.sle(nt.W, bv.W)), "text slice: len=hi-lo, width<=width of whole")
-		nt.NL = m.IntC(0)
+		var nt Text
+		if k, ok := bv.W.Int64(); ok && k == 0 {
+			// a slice of zero-width content (control bytes, zeroed buffers) has zero width and the exact length
+			nt = Text{W: m.IntC(0), N: m.sub(hi, lo), NL: m.IntC(0), CUU: m.IntC(0), ID: c.UF("slice", m.intSort(), bv.ID, lo, hi)}
+		} else {
+			nt = m.FreshText("slice")
+			m.Assume(c.And(m.sle(nt.W, bv.W)), "text slice: width<=width of whole")
+			nt.N = m.sub(hi, lo)
+			nt.NL = m.IntC(0)
+		}
 		return m.Merge(full, bv, nt)
 	case SliceV:
 		if x.High != nil {
